@@ -19,9 +19,46 @@ import dawgie.context
 import dawgie.pl.dag
 import dawgie.pl.schedule
 import dawgie.util
+import dawgie.util.refs
 import pydot
 
 logging.disable(logging.CRITICAL)
+
+# line coverage of the anchored modules during this run (generator quality is
+# measured, not assumed -- DESIGN section 2)
+import os
+import sys
+
+_HIT = set()
+_FILES = {os.path.realpath(dawgie.pl.dag.__file__): 'pl/dag.py',
+          os.path.realpath(dawgie.util.refs.__file__): 'util/refs.py'}
+
+
+def _on_line(code, line):
+    f = _FILES.get(code.co_filename) or _FILES.get(os.path.realpath(code.co_filename))
+    if f:
+        _HIT.add((f, line))
+    return sys.monitoring.DISABLE
+
+
+def _executable(path):
+    out = set()
+    todo = [compile(open(path).read(), path, 'exec')]
+    while todo:
+        c = todo.pop()
+        if c.co_flags & 0x1:     # function bodies only (not class / module)
+            out.update(ln for _, _, ln in c.co_lines()
+                       if ln is not None and ln != c.co_firstlineno)
+        todo.extend(k for k in c.co_consts if hasattr(k, 'co_lines'))
+    # a def line itself executes at import time, not during the run
+    return out
+
+
+if hasattr(sys, 'monitoring'):
+    sys.monitoring.use_tool_id(sys.monitoring.COVERAGE_ID, 'dv_c09')
+    sys.monitoring.register_callback(sys.monitoring.COVERAGE_ID,
+                                     sys.monitoring.events.LINE, _on_line)
+    sys.monitoring.set_events(sys.monitoring.COVERAGE_ID, sys.monitoring.events.LINE)
 
 P = payload()
 TMP = tempfile.mkdtemp(prefix='dv_dag_')
@@ -98,6 +135,9 @@ def observe(desc):
     obs['tt'] = dump_tree(C.tt, False)
     # what the scheduler reads through the public helpers
     obs['iter'] = {r.tag: [e.tag for e in r.iter()] for r in C.at}
+    roots_at = {r.tag: r for r in C.at}
+    obs['locate'] = {t: sum(len(r.locate(t)) for r in roots_at.values())
+                     for t in obs['at']['nodes']}
     obs['getitem'] = {}
     for k in list(flat.keys())[:3]:
         obs['getitem'][k] = [n.tag for n in C[k]]
@@ -113,4 +153,12 @@ for i, desc in enumerate(P['cases']):
     out.append(observe(desc))
 pydot.Dot.write_svg = _real_write_svg
 shutil.rmtree(TMP, ignore_errors=True)
-result({'cases': out})
+cov = {}
+if hasattr(sys, 'monitoring'):
+    sys.monitoring.set_events(sys.monitoring.COVERAGE_ID, 0)
+    for path, short in _FILES.items():
+        ex = _executable(path)
+        hit = {ln for f, ln in _HIT if f == short}
+        cov[short] = {'executable': len(ex), 'hit': len(ex & hit),
+                      'missed': sorted(ex - hit)[:60]}
+result({'cases': out, 'coverage': cov})
